@@ -823,6 +823,12 @@ pub fn check_main<P: Prop>(tier: Tier, seed: u64, workers: usize, extra: Option<
             if exit == 0 {
                 exit = 1;
             }
+        } else if sig == "process_death/signal=9" {
+            // SIGKILL never comes from the library: it is the supervisor's own kill after a stall
+            // or the kernel's out-of-memory killer on an overloaded machine. Alone it gives no
+            // verdict; it does not void violations that did reproduce.
+            println!("NOTE: a worker was killed (signal 9) at case {} and the case does not kill it again: machine overload, not a property of the case", f.idx);
+            unrepro_varying += 1;
         } else if varies_ok {
             // no verdict from this one alone; it only counts against the run if nothing else
             // is reported (see below)
